@@ -164,8 +164,10 @@ def run_grouped(case):
             S.set_common_charges(_unique(sites), case['common'])
             ch.maps = [gen.site_to_doc_index(s, d) for s, d in zip(sites, ch.docs)]
             out['used_common'] = True
+        snaps = [snapshot(s) for s in sites]
         gs = S.GroupedSite(sites, labels=labels, charges=pol)
         gs.test_sanity()
+        out['originals_changed'] = [[k, snapshot_diff(sn, snapshot(s))] for k, (s, sn) in enumerate(zip(sites, snaps)) if snapshot_diff(sn, snapshot(s))]
     except Exception as e:
         return {'error': type(e).__name__, 'msg': str(e)[:200], 'tb': traceback.format_exc()[-600:],
                 'used_common': out.get('used_common', False)}
@@ -184,6 +186,8 @@ def run_grouped(case):
     nops = 0
     # the sites handed in are documented to be left alone (copied when charges != 'same'; only their charges adjusted by
     # set_common_charges): re-verify every one of them through its own state labels
+    for k, dd in out.get('originals_changed', []):
+        probs.append('GroupedSite changed the %s of the site #%d handed in (documented: copied before use / nothing to do)' % (', '.join(dd), k))
     for k, s in enumerate(sites):
         p = verify_site(s, mirror_of_spec(case['sites'][k]))
         if p:
@@ -356,6 +360,20 @@ def verify_site(site, mir):
     return probs
 
 
+def snapshot(site):
+    """everything a call that is documented NOT to touch `site` must leave as it is"""
+    leg = site.leg
+    return {'mod': [int(x) for x in leg.chinfo.mod], 'charge names': [str(x) for x in leg.chinfo.names],
+            'charges': [[int(x) for x in r] for r in leg.to_qflat()], 'qconj': int(leg.qconj), 'perm': [int(x) for x in site.perm],
+            'state_labels': sorted((str(k), int(v)) for k, v in site.state_labels.items()), 'opnames': sorted(site.opnames),
+            'need_JW_string': sorted(site.need_JW_string), 'hc_ops': sorted((str(a), str(b)) for a, b in site.hc_ops.items()),
+            'charge_to_JW_parity': None if getattr(site, 'charge_to_JW_parity', None) is None else [int(x) for x in site.charge_to_JW_parity]}
+
+
+def snapshot_diff(a, b):
+    return [k for k in a if a[k] != b[k]]
+
+
 def _same_chinfo(sites):
     return all(s.leg.chinfo == sites[0].leg.chinfo and s.leg.chinfo.names == sites[0].leg.chinfo.names for s in sites)
 
@@ -402,12 +420,15 @@ def run_book(case):
         kind = step[0]
         status = 'ok'
         before = [dict(s.state_labels) for s, _ in everything()]
+        snaps = [(s, m, snapshot(s)) for s, m in everything()]
+        touched = []            # sites the call is allowed to modify
         try:
             if kind in ('group', 'group_sites'):
                 idxs, pol, labels = step[1], step[2], step[3]
                 sites = [simple[i][0] for i in idxs]
                 mirs = [simple[i][1] for i in idxs]
                 if pol == 'same' and not _same_chinfo(sites):
+                    touched = _unique(sites)
                     try:
                         S.set_common_charges(_unique(sites), 'same')
                     except ValueError as e:
@@ -430,6 +451,7 @@ def run_book(case):
             elif kind == 'set_common':
                 idxs, pol, sort = step[1], step[2], step[3]
                 sites = [simple[i][0] for i in idxs]
+                touched = sites
                 new = pol
                 if pol in ('sum', 'diff'):
                     chs = [s.leg.chinfo for s in sites]
@@ -445,6 +467,7 @@ def run_book(case):
                         status = 'skipped'
             elif kind == 'change_charge':
                 site, mir = simple[step[1]]
+                touched = [site]
                 mode = step[2]
                 if mode == 'drop':
                     site.change_charge(None)
@@ -471,6 +494,7 @@ def run_book(case):
                     status = 'skipped'
                 else:
                     site, mir = t
+                    touched = [site]
                     cand = sorted(n for n in mir.ops if n not in ('Id', 'JW'))
                     if kind == 'sort_charge':
                         site.sort_charge()
@@ -510,8 +534,14 @@ def run_book(case):
             out['applied'].append('raised')
             break
         out['applied'].append(status)
-        if any(dict(s.state_labels) != b for (s, _), b in zip(everything(), before)):
+        if any(dict(s_.state_labels) != b for (s_, _, _), b in zip(snaps, before)):
             out['permuted'] = True
+        for k, (s_, m_, sn) in enumerate(snaps):
+            if not any(s_ is t_ for t_ in touched):
+                dd = snapshot_diff(sn, snapshot(s_))
+                if dd:
+                    out['problems'].append({'step': si, 'op': step, 'site': k, 'tag': m_.tag,
+                                            'probs': ['the call is documented not to modify this site, but it changed its %s' % ', '.join(dd)]})
         verify_all(si, step)
         if out['problems']:
             break
